@@ -71,3 +71,36 @@ Definition chol_ok (V L : list (list Q)) : bool :=
 Definition labs_solve_ok (V L : list (list Q)) (y e : list Q) (b : Q) : bool :=
   chol_ok V L && list_eqb Qeq_bool (qmv L y) (map (fun x => x - b) e).
 Definition labs_fstat_q (y : list Q) : Q := qdot y y / inject_Z (Z.of_nat (length y)).
+
+(* ------------------------------------------------------------------ *)
+(* Cache machine correspondence.  For every step the harness passes the set of
+   (contents, baseline) tags whose from-scratch value equals what the
+   implementation returned (None: nothing to compare - a new object was made, or
+   the call raised); the model's predicted tag must be in that set. *)
+Fixpoint cexp_eqb (a b : cexp) : bool :=
+  match a, b with
+  | CBase i, CBase j => Nat.eqb i j
+  | CMul k c, CMul k' c' => Qeq_bool k k' && cexp_eqb c c'
+  | CAdd x y, CAdd x' y' => cexp_eqb x x' && cexp_eqb y y'
+  | _, _ => false
+  end.
+Definition tag_eqb (a b : tag) : bool := cexp_eqb (fst a) (fst b) && Qeq_bool (snd a) (snd b).
+Definition obs_match (o : obs) (m : option (list tag)) : bool :=
+  match m with
+  | None => true
+  | Some ms =>
+      match o with
+      | ObStat t => existsb (tag_eqb t) ms
+      | ObP t => existsb (tag_eqb t) ms
+      | ObZ pt _ => existsb (tag_eqb pt) ms
+      | ObNew => true
+      end
+  end.
+Fixpoint all_match (os : list obs) (ms : list (option (list tag))) : bool :=
+  match os, ms with
+  | [], [] => true
+  | o :: os', m :: ms' => obs_match o m && all_match os' ms'
+  | _, _ => false
+  end.
+Definition machine_agrees (stat_drops_p : bool) (ops : list cop) (observed : list (option (list tag))) : bool :=
+  all_match (run stat_drops_p (init_state (CBase 0)) ops) observed.
